@@ -85,6 +85,10 @@ func cmdCheck(args []string) int {
 		timeout = 60
 	}
 	outDir := filepath.Join(verifDir, "out", id)
+	if *dir != repoDir {
+		// a run against another tree (must-fail corpus) keeps its files apart from the real check's
+		outDir = filepath.Join(verifDir, "out", "alt", id)
+	}
 	_ = os.RemoveAll(outDir)
 	_ = os.MkdirAll(filepath.Join(outDir, "replay"), 0o755)
 
